@@ -12,18 +12,31 @@ RULE = ("all 8192 13-bit codes through common.altitude and in DF0/4/16/20 carrie
         "whose expected value is not None")
 ASSUMPTIONS = [
     "expected table built by encoding: Q=1 N->25N-1000; Gillham from -1200..126700 step 100 (1280 codes); "
-    "M=1 metric codes: int(N*3.28084) accepted within +-1 ft",
+    "M=1 metric codes and GNSS height: N*3.28084 (or N/0.3048) exactly, truncated or rounded to the nearest foot",
 ]
 
 pms = loader.load("P")
 TABLE, GIL = A.table13()
 
 
+def m2ft_ok(n, got):
+    """metres converted to feet: the exact product (either spelling of the factor), or that product truncated or rounded to
+    the nearest whole foot.  A value that is none of these (e.g. a coarser factor such as 3.281, off by up to 0.66 ft at
+    4000 m) is not the conversion."""
+    if got is None or isinstance(got, bool):
+        return False
+    for v in (n * 3.28084, n / 0.3048):
+        if abs(got - v) <= 1e-6 * max(1.0, abs(v)):
+            return True
+        if got == int(v) or got == int(v + 0.5):
+            return True
+    return False
+
+
 def expect_ok(code, got):
     exp = TABLE[code]
     if isinstance(exp, tuple):
-        v = exp[1] * 3.28084
-        return got is not None and not isinstance(got, bool) and abs(got - v) <= 1.0
+        return m2ft_ok(exp[1], got)
     return got == exp and (got is None or isinstance(got, int))
 
 
@@ -58,7 +71,7 @@ def judge(kind, code, msg):
             return None if ok else "%s:baro:%s" % (kind, cls(A.ac12_to_13(code)))
         if 20 <= tc <= 22:
             # metres converted to feet: the exact product, or rounded / truncated to whole feet (as the metric baro codes are)
-            ok = r[0] == "ok" and r[1] is not None and abs(r[1] - code * 3.28084) <= 1.0
+            ok = r[0] == "ok" and m2ft_ok(code, r[1])
             return None if ok else "%s:gnss" % kind
         if 5 <= tc <= 8 and kind == "adsb":
             ok = r == ("ok", 0)
